@@ -1,8 +1,9 @@
 import PyxModel.Sexp
 import PyxModel.Sql.Wire
+import PyxModel.Sql.Links
 
 /-! driver for `(c01 <mm> "extra text" …)`:
-    answer `((texts t1 … t8) (loads L1 … L8 Lextra …))` — the eight writer routes of xtuml/persist.py on the
+    answer `((texts t1 … t8) (loads L1 … L8 Lextra …) (links Lm Lr))` — the eight writer routes of xtuml/persist.py on the
     model, and for each of those texts and each extra text what the loader makes of it:
     `(accepted (stmt …) <built model | parsing | meta>)` or `(parsing)`. -/
 namespace Pyx.Driver.C01
@@ -19,10 +20,28 @@ def loadSexp (t : Text) : Sexp :=
   | .parsing => list [sym "parsing"]
   | .accepted stmts => list [sym "accepted", list (stmts.map stmtSexp), buildSexp u0 (build u0 stmts)]
 
+def pairsSexp (ps : List (Nat × Nat)) : Sexp := list (ps.map fun p => list [ofNat p.1, ofNat p.2])
+
+/-- per association (in the order of the metamodel's association list) the link pairs its keys denote -/
+def linksSexp (m : MM) : Sexp := list ((linksOf u0 m).map fun x => pairsSexp x.2)
+
+/-- the links of the metamodel built from the `serialize_database` text -/
+def reloadedLinks (m : MM) : Sexp :=
+  match printItems u0 (m.serializeDatabase u0) with
+  | none => sym "none"
+  | some t =>
+    match classify u0 t with
+    | .parsing => sym "none"
+    | .accepted stmts =>
+      match build u0 stmts with
+      | .ok bs => linksSexp (bs.toMM u0)
+      | .error _ => sym "none"
+
 def run (m : MM) (extra : List Text) : Sexp :=
   let texts := (routes m).map (printItems u0)
   let loads := texts.map (fun t => match t with | some t => loadSexp t | none => sym "error") ++ extra.map loadSexp
-  list [list (sym "texts" :: texts.map optText), list (sym "loads" :: loads)]
+  list [list (sym "texts" :: texts.map optText), list (sym "loads" :: loads),
+        list [sym "links", linksSexp m, reloadedLinks m]]
 
 def handle : List Sexp → Option Sexp
   | sym "c01" :: m :: extra =>
